@@ -6,6 +6,47 @@ from .p_c05 import ConcBase
 PROGS = ["f0", "f0 d0", "k0 d0 d1", "f0 f1 d0 d1", "l0 d0", "d0", "f0 k1 d0", "c0:1 d0 s1", "f0 d1 f0", "k0 k0 d0"]
 
 
+def handles_ref(case, raw):
+    """reference for `R` cases: a tree is torn down by exactly the operation that takes its last handle away"""
+    t = case.split(" ")
+    n, ops = int(t[1]), t[3:]
+    regs = list(range(n))
+    alive = [True] * n
+    def gone(tree):
+        if tree is not None and alive[tree] and tree not in regs:
+            alive[tree] = False
+            return "t%d" % tree
+        return "-"
+    exp = []
+    for op in ops:
+        c, idx = op[0], [int(x) for x in op[1:].split(":")]
+        old = None
+        if c in "ck":
+            regs.append(regs[idx[0]] if idx[0] < len(regs) else None)
+        elif c == "d":
+            if idx[0] < len(regs):
+                old, regs[idx[0]] = regs[idx[0]], None
+        elif c == "f":
+            a, b = idx
+            if a < len(regs) and b < len(regs) and regs[a] is not None and regs[b] is not None:
+                old, regs[a] = regs[a], regs[b]
+        elif c == "s":
+            a, b = idx
+            if a < len(regs) and b < len(regs):
+                regs[a], regs[b] = regs[b], regs[a]
+        exp.append(gone(old))
+    fin = []
+    for i in range(len(regs)):
+        old, regs[i] = regs[i], None
+        fin.append(gone(old))
+    want = "RH %s || %s || leak=0" % (" ".join(exp), " ".join(fin))
+    if raw != want:
+        return "handle operations over %d trees: got `%s`, a tree must go exactly when its last handle goes: `%s`" % (n, raw[:200], want[:200])
+    if not all(not a for a in alive):
+        return "a tree survived all its handles"
+    return None
+
+
 class C06(ConcBase):
     id = "C06"
     design_ref = "DESIGN.md section 5 / C06"
@@ -29,9 +70,35 @@ class C06(ConcBase):
     miri_programs = ["clone_drop", "traverse"]
 
     def cases(self, tier, seed):
-        return self.gen(tier, seed, PROGS, 6)
+        res = self.gen(tier, seed, PROGS, 6)
+        # `R` cases: several trees and the handle operations std provides on top of Clone and Drop (Handles.v)
+        import itertools
+        from .core import Rng
+        alpha = ["c0", "c1", "k0", "k1", "d0", "d1", "d2", "f0:1", "f1:0", "f2:0", "f2:1", "f0:2", "s0:1", "s0:2"]
+        n = 3 if tier == "quick" else 4
+        for ln in range(1, n + 1):
+            for seq in itertools.product(alpha, repeat=ln):
+                res.append(("exhaustive", "R 2 | " + " ".join(seq)))
+        rng = Rng(seed + 106)
+        for _ in range(600 if tier == "quick" else 12000):
+            nt = 1 + rng.below(3)
+            nregs = nt
+            ops = []
+            for _ in range(rng.choice([4, 10, 25])):
+                c = rng.choice("ckdffs")
+                a, b = rng.below(nregs + 1), rng.below(nregs + 1)
+                if c in "ck":
+                    ops.append("%s%d" % (c, a)); nregs += 1
+                elif c == "d":
+                    ops.append("d%d" % a)
+                else:
+                    ops.append("%s%d:%d" % (c, a, b))
+            res.append(("random", "R %d | %s" % (nt, " ".join(ops))))
+        return res
 
     def project(self, line):
+        if line.startswith("RH "):
+            return line
         p = line.split(" || ")
         # (memory orderings weaker than AcqRel are marked ~Ordering in the trace: they are C07's business, not C06's)
         return (re.sub(r"~\w+", "", CR.strip_markers(p[0])) + " || " + re.sub(r" payloads=.*", "", p[2])) if len(p) == 3 else line
@@ -42,6 +109,8 @@ class C06(ConcBase):
     def spec_raw(self, case, raw):
         if case.startswith("M "):
             return None if raw == "ok" else "Miri on program `%s`: %s" % (case.split(" ")[1], raw)
+        if case.startswith("R "):
+            return handles_ref(case, raw)
         return CR.check_c06(case, raw)
 
     def nontrivial(self, case, impl):
